@@ -20,13 +20,14 @@ func init() {
 
 func runC16(c *core.Ctx) {
 	runFixtures(c, "paging", "bounds")
-	c.Explain("Structural clauses of C16 decided from source, for every io/fs.File implementation whose ReadDir(n) computes its own page window (keyvalue.file, cache.dir; pure delegations such as os.file are inventoried): (R16.1) an io.EOF return exists, control-dependent on n > 0 and on a cursor/length comparison, and that comparison is evaluated before every nil-error return reachable with n > 0; (R16.3) every path to a nil-error return that slices the listing also stores the cursor, and every value stored to the cursor depends on the old cursor or on the listing length, never on n alone; (R16.2) every slice of the listing has bounds entailed by dominating guards (no panic when the cursor is at/after the end); (R16.4) by-name listings are sorted by construction: the helper ends in io/fs.ReadDir and every ReadDirFS implementation of the module returns entries from a sorting source; (R16.5) a failing ReadDirNames is returned wrapped in a *PathError. NOT claimed: exactly-once delivery across pages as a value-level fact, agreement of entries with Stat, mount-point children.")
+	c.Explain("Structural clauses of C16 decided from source, for every io/fs.File implementation whose ReadDir(n) computes its own page window (keyvalue.file, cache.dir; pure delegations such as os.file are inventoried): (R16.1) an io.EOF return exists, control-dependent on n > 0 and on a cursor/length comparison, and that comparison is evaluated before every nil-error return reachable with n > 0; (R16.3) every path to a nil-error return that slices the listing also stores the cursor, and every value stored to the cursor depends on the old cursor or on the listing length, never on n alone; (R16.2) every slice of the listing has bounds entailed by dominating guards (no panic when the cursor is at/after the end); (R16.4) by-name listings are sorted by construction: the helper ends in io/fs.ReadDir and every ReadDirFS implementation of the module returns entries from a sorting source; (R16.5) a failing ReadDirNames is returned wrapped in a *PathError. (R16.7) a sum that involves the caller's count n is formed only where n is already bounded from above by a dominating comparison of n itself (n < remaining): 'cursor + n' compared afterwards overflows for a huge n on a handle whose cursor is not zero, and the listing slice then panics — the difference constraints of R16.2 are over mathematical integers and do not see this. NOT claimed: exactly-once delivery across pages as a value-level fact, agreement of entries with Stat, mount-point children.")
 	c.Assume("A2: io/fs.ReadDir and os.ReadDir return entries sorted by name", "A6: partial correctness")
 	c.RuleDoc("R16.1", "EOF exit exists and guards every nil-error return with n>0")
 	c.RuleDoc("R16.2", "listing slice bounds entailed by guards")
 	c.RuleDoc("R16.3", "cursor stored on every paging path; stored value depends on old cursor or listing length")
 	c.RuleDoc("R16.4", "by-name listings sorted by construction")
 	c.RuleDoc("R16.5", "listing failure wrapped in *PathError")
+	c.RuleDoc("R16.7", "the page end is computed without integer overflow")
 	c.RuleDoc("R16.6", "the paged listing is stable per handle (memoised or sorted); children are enumerated on element boundaries")
 	for _, p := range c.Progs {
 		c.SetProg(p)
@@ -55,6 +56,7 @@ func runC16(c *core.Ctx) {
 			}
 			windowing++
 			r16Window(c, p, tk, fn, win)
+			r16NoOverflow(c, p, tk, fn)
 		}
 		c.Info("readdir_delegating_"+p.Target.GOOS, delegating)
 		if windowing < 2 {
@@ -71,6 +73,7 @@ func runC16(c *core.Ctx) {
 		}
 	}
 	c.Floor("R16.6", 3)
+	c.Floor("R16.7", 2)
 	c.Floor("R16.1", 2)
 	c.Floor("R16.2", 2)
 	c.Floor("R16.3", 2)
@@ -257,7 +260,7 @@ func r16Window(c *core.Ctx, p *load.Program, tk string, fn *ssa.Function, win []
 	}
 	// ---- R16.2 bounds of the listing slices ----
 	type sumRec struct{ s, a, b ssax.Term }
-	var sums []sumRec
+	var sums, diffs []sumRec
 	var canon ssax.Canon
 	canon = func(v ssa.Value) (ssax.Term, bool) {
 		v = ssax.StripIntConv(v)
@@ -284,7 +287,22 @@ func r16Window(c *core.Ctx, p *load.Program, tk string, fn *ssa.Function, win []
 			}
 			st := ssax.Term{Sym: "(" + ts(a) + "+" + ts(b) + ")"}
 			sums = append(sums, sumRec{st, a, b})
+			// the commuted reading too: a+b = b+a
+			sums = append(sums, sumRec{st, b, a})
 			return st, true
+		}
+		if bo, ok := v.(*ssa.BinOp); ok && bo.Op == token.SUB {
+			a, _ := canon(bo.X)
+			b, _ := canon(bo.Y)
+			ts := func(t ssax.Term) string {
+				if t.IsConst {
+					return fmt.Sprint(t.Const)
+				}
+				return t.Sym
+			}
+			dt := ssax.Term{Sym: "(" + ts(a) + "-" + ts(b) + ")"}
+			diffs = append(diffs, sumRec{dt, a, b})
+			return dt, true
 		}
 		return ssax.Term{Sym: "v:" + v.Name()}, true
 	}
@@ -294,6 +312,15 @@ func r16Window(c *core.Ctx, p *load.Program, tk string, fn *ssa.Function, win []
 		for i := 0; i < 2; i++ {
 			for _, sr := range sums {
 				b.Sum(sr.s, sr.a, sr.b)
+			}
+			for _, dr := range diffs {
+				b.Diff(dr.s, dr.a, dr.b)
+				// x < a - t  <=>  x + t < a, for a sum with the same t
+				for _, sr := range sums {
+					if sr.b == dr.b {
+						b.Couple(sr.s, sr.a, dr.s, dr.a)
+					}
+				}
 			}
 		}
 	}
@@ -696,4 +723,53 @@ func listingIsStable(p *load.Program, cl *ssa.Call, depth int) bool {
 		}
 	})
 	return stable
+}
+
+// r16NoOverflow (R16.7)
+func r16NoOverflow(c *core.Ctx, p *load.Program, tk string, fn *ssa.Function) {
+	nPrm := fn.Params[1]
+	isN := func(v ssa.Value) bool { return ssax.StripIntConv(v) == ssa.Value(nPrm) }
+	ord := ordinals{}
+	ssax.Instrs(fn, func(ins ssa.Instruction) {
+		bo, ok := ins.(*ssa.BinOp)
+		if !ok || bo.Op != token.ADD {
+			return
+		}
+		if _, isInt := bo.Type().Underlying().(*types.Basic); !isInt || (!isN(bo.X) && !isN(bo.Y)) {
+			return
+		}
+		if _, isConst := bo.X.(*ssa.Const); isConst {
+			return
+		}
+		if _, isConst := bo.Y.(*ssa.Const); isConst {
+			return
+		}
+		key := tk + ".ReadDir|" + ord.next("sum-with-n")
+		bounded := false
+		for _, f := range ssax.FactsAtInstr(bo) {
+			cmp, ok := f.Cond.(*ssa.BinOp)
+			if !ok {
+				continue
+			}
+			// n < e / n <= e (true) or e > n / e >= n (true), or their negations the other way round
+			upper := false
+			switch {
+			case isN(cmp.X) && !dependsOn(cmp.Y, isN):
+				upper = (f.Val && (cmp.Op == token.LSS || cmp.Op == token.LEQ)) || (!f.Val && (cmp.Op == token.GTR || cmp.Op == token.GEQ))
+			case isN(cmp.Y) && !dependsOn(cmp.X, isN):
+				upper = (f.Val && (cmp.Op == token.GTR || cmp.Op == token.GEQ)) || (!f.Val && (cmp.Op == token.LSS || cmp.Op == token.LEQ))
+			}
+			if upper {
+				if _, isConst := cmp.X.(*ssa.Const); isConst {
+					continue // n > 0 style tests bound n from below only
+				}
+				if k, isConst := ssax.ConstInt(cmp.Y); isConst && k <= 0 {
+					continue
+				}
+				bounded = true
+			}
+		}
+		c.Check(bounded, "R16.7", key, p.Pos(bo.Pos()), "the sum with n is formed only where n is bounded above by a dominating comparison",
+			fmt.Sprintf("%s adds the caller's count n to the cursor before n is bounded (%s): for a huge n on a handle that already returned a page the sum overflows to a negative number and the listing slice panics — compare n with the remainder (length - cursor) first", fname(fn), p.Pos(bo.Pos())))
+	})
 }
